@@ -30,7 +30,9 @@ def policy_fn(spec: str):
     return lambda req, rem: 1 + (rem * a + req) % b
 
 
-def rand_policy(rng) -> str:
+def rand_policy(rng, size: int = 0) -> str:
+    if size > 200_000:  # large archives: keep the number of raw reads (and the run time) bounded
+        return rng.choice(["f511", "f512", "f513", "f4096", "f65536", "m3,5000", "m7,700"])
     k = rng.random()
     if k < 0.45:
         return "f" + str(rng.choice([1, 2, 3, 7, 100, 511, 512, 513, 1000, 4096, 65536]))
@@ -101,7 +103,7 @@ def real_members(data: bytes, spec: str, bufsize: int = 1000):
                         async with await tar.extractfile(member) as f:
                             while c := await f.read(bufsize):
                                 content += c
-                    out.append((member.type.decode("latin1") + member.name, len(content), digest(content)))
+                    out.append((member.name, len(content), digest(content)))
         except tarfile.TarError as e:
             return ("error", type(e).__name__)
         return ("ok", out)
@@ -194,7 +196,7 @@ class C23(Property):
     props_files = ["SFV/Props/C23.lean"]
     drivers = ["Drivers/C23.lean"]
     translators = []
-    quick_budget_s = 300
+    quick_budget_s = 480
     rule = ("(1) stream ops: random read/seek sequences on the real SeekableStreamReaderWrapper over a chunking fake stream (policies: at most "
             "k bytes per raw read, k in 1..65536; pseudo-random sizes depending on request and remaining) vs the Lean reader; (2) archives of "
             "random trees written by GNU tar (gnu/ustar/posix), Python tarfile (GNU/USTAR/PAX) and the async writer, read by the real "
@@ -261,12 +263,16 @@ class C23(Property):
         return lines, expect, meta
 
     # ---- archives ----------------------------------------------------------------------------------------------------
-    def make_archives(self, ctx: Ctx, idx: int, simple: bool, big: int | None = None):
+    def make_archives(self, ctx: Ctx, idx: int, simple, big: int | None = None):
         """one random tree and its archives by every writer; returns (src path, base name, {writer: bytes})"""
         rng = ctx.rng
         parent = os.path.join(ctx.scratch, f"t{self.gen}_{idx}")
-        base = "src" if simple or rng.random() < 0.5 else rng.choice(["a b", "it's", "日本", "-dash"])
+        base = "src" if simple is True or rng.random() < 0.5 else rng.choice(["a b", "it's", "日本", "-dash"])
         src = os.path.join(parent, base)
+        if simple == "long":
+            make_tree(rng, src, max_entries=rng.choice([4, 10]), nasty=0.5, symlinks=False, long_names=True, big=None)
+            return src, base, {"tarfile-gnu": py_tar(parent, base, tarfile.GNU_FORMAT), "gnutar-gnu": gnu_tar(parent, base, "gnu"),
+                               "async-writer": async_write(src, base)}
         make_tree(rng, src, max_entries=rng.choice([0, 3, 8, 30]) if not simple else rng.choice([1, 4, 8]), nasty=0.0 if simple else 0.5,
                   symlinks=not simple, long_names=not simple, big=big)
         arch = {}
@@ -294,7 +300,7 @@ class C23(Property):
         if single and replay.get("into_dir"):
             os.makedirs(dst)
         try:
-            status, info = run_forked(lambda: real_extract(data, spec, base, dst), 20)
+            status, info = run_forked(lambda: real_extract(data, spec, base, dst), 45 if len(data) < 200_000 else 150)
         except Hang as e:
             key = "truncation:makefile-copy-loop-never-ends" if cut and single and replay.get("into_dir") else f"{'truncation' if cut else 'chunking'}:hang"
             ctx.fail(key, f"{tag}: extract_tar_stream did not return ({e}); archive {len(data)} bytes, policy {spec}, cut {cut}", replay)
@@ -327,19 +333,19 @@ class C23(Property):
             ctx.count(f"cut:{cut[0]}:tree-complete")
         shutil.rmtree(dst, ignore_errors=True)
 
-    def archive_cases(self, ctx: Ctx, n_simple: int, n_rich: int, n_cuts: int):
+    def archive_cases(self, ctx: Ctx, n_simple: int, n_rich: int, n_cuts: int, n_long: int = 2):
         rng = ctx.rng
         lines, expect, meta = [], [], []
-        for i in range(n_simple + n_rich):
+        for i in range(n_simple + n_long + n_rich):
             if ctx.out_of_time():
                 ctx.extra["incomplete"] = True
                 break
-            simple = i < n_simple
+            simple = True if i < n_simple else ("long" if i < n_simple + n_long else False)
             big = (1 << 20) if (not simple and ctx.tier == "thorough" and i % 4 == 0) else None
             src, base, arch = self.make_archives(ctx, i, simple, big)
             want_tree = snapshot(src)
             for writer, data in arch.items():
-                spec = rand_policy(rng)
+                spec = rand_policy(rng, len(data))
                 replay = {"op": "archive", "writer": writer, "policy": spec, "archive_hex": data.hex() if len(data) <= 40960 else None, "base": base,
                           "tree": {k: list(v) for k, v in list(want_tree.items())[:40]}}
                 ctx.case({"op": "archive", "writer": writer, "policy": spec, "bytes": len(data), "entries": len(want_tree)},
@@ -357,7 +363,7 @@ class C23(Property):
                     cuts = boundaries(data)
                     rng.shuffle(cuts)
                     for cut in cuts[:n_cuts]:
-                        spec2 = rand_policy(rng)
+                        spec2 = rand_policy(rng, len(data))
                         r2 = {**replay, "policy": spec2, "cut": list(cut)}
                         ctx.case({"op": "truncate", "writer": writer, "policy": spec2, "cut": cut, "bytes": len(data)},
                                  ("cut", data[:2048], cut, spec2), f"truncate:{cut[0]}")
@@ -438,11 +444,13 @@ class C23(Property):
                     ctx.fail(f"writer:{reader}-extracts-different-tree", f"format {fmt}: {d[:3]}", replay)
 
     def explore(self, ctx: Ctx) -> None:
+        from sfv.rt.shfake import limit_failures
+        limit_failures(ctx)
         self.gen = getattr(self, "gen", 0) + 1
         self.nx = 0
         big = ctx.tier == "thorough" or ctx.mode == "search"
         lines, expect, meta = self.stream_cases(ctx, 1500 if big else 300)
-        l2, e2, m2 = self.archive_cases(ctx, 12 if big else 2, 25 if big else 3, 10 if big else 3)
+        l2, e2, m2 = self.archive_cases(ctx, 12 if big else 2, 25 if big else 3, 10 if big else 3, 8 if big else 2)
         self.writer_cases(ctx, 25 if big else 4)
         lines, expect, meta = lines + l2, expect + e2, meta + m2
         got = ctx.lean("Drivers/C23.lean", lines, timeout=900)
